@@ -26,6 +26,25 @@ Log(e) == hist' = Append(hist, e)
 HStep ==
     \/ \E d \in Doms : \E p \in In(d) \cup {Null} : \E b \in HBuilders :
           Insert(d, p, b) /\ Log([op |-> "insert", d |-> d, p |-> p, b |-> b])
+    \* a builder whose first or last node carries the referent of an instance of the DOM (the lowest one: which
+    \* instance it is makes no difference to the specification)
+    \/ \E d \in Doms : \E p \in In(d) \cup {Null} : \E b \in HBuilders : \E k \in {1, Len(b)} :
+          LET c == CHOOSE x \in In(d) : \A y \in In(d) : x <= y IN
+          /\ In(d) # {}
+          /\ \A i \in 1..Len(b) : b[i].uid = NoUid
+          /\ InsertCollide(d, p, b, k, c)
+          /\ Log([op |-> "insert_collide", d |-> d, p |-> p, b |-> b, k |-> k, c |-> c])
+    \* calls the documentation promises to refuse
+    \/ \E d \in Doms : \E kind \in RootKinds : \E p \in In(3 - d) \cup In(d) :
+          LET r == IF root[d] \in Refs THEN root[d] ELSE Null IN
+          /\ (kind = "transfer_root") = (p \in In(3 - d))
+          /\ kind # "destroy_root" \/ p = (CHOOSE x \in In(d) : TRUE)
+          /\ BadCall(kind, d, r)
+          /\ hist' = Append(hist, [op |-> "bad", kind |-> kind, d |-> d, r |-> r, p |-> p])
+    \/ \E d \in Doms : \E kind \in MissingKinds : \E r \in (1..(nextRef - 1)) \ In(d) :
+          /\ BadCall(kind, d, r)
+          /\ \E p \in In(d) : p = (CHOOSE x \in In(d) : TRUE)
+                              /\ hist' = Append(hist, [op |-> "bad", kind |-> kind, d |-> d, r |-> r, p |-> p])
     \/ \E d \in Doms : \E r \in In(d) :
           Destroy(d, r) /\ Log([op |-> "destroy", d |-> d, r |-> r])
     \/ \E d \in Doms : \E r \in In(d) : \E e \in Doms : \E p \in In(e) :
